@@ -15,6 +15,7 @@ import time
 from common import *  # noqa: F401,F403
 import pngen
 import modsim
+import seclabels
 
 PROP = "C13"
 TAG_GEN = "C13/gen"
@@ -32,6 +33,7 @@ HDR = re.compile(r"(?:,-|╭─)\[ ?([^\]\s]+):(\d+):(\d+) ?\]")
 CODE = re.compile(r"\[([EL]\d+)\]")
 LOC = re.compile(r'Location \{ source_filename: "((?:[^"\\]|\\.)*)", span: (\d+)\.\.(\d+), line_number: (\d+), line_offset: (\d+) \}')
 NAMED_LOC = re.compile(r'(?<![A-Za-z_])name: "((?:[^"\\]|\\.)*)", location: Location \{ source_filename: "((?:[^"\\]|\\.)*)", span: (\d+)\.\.(\d+),')
+LEXICAL = re.compile(r'Lexical \{ error: (\w+), location: Location \{ source_filename: "((?:[^"\\]|\\.)*)", span: (\d+)\.\.(\d+),')
 EXPECTATION = re.compile(r'expectation: "((?:[^"\\]|\\.)*)"')
 ANSI = re.compile(rb"\x1b\[[0-9;]*m")
 
@@ -136,7 +138,7 @@ def corpus_sets():
 
 MISTAKES = ["dup_pub_fn", "dup_pub_const", "dup_pub_struct", "type_error_in_importer", "error_in_imported",
             "unresolved_import", "syntax_error", "undefined_in_two_modules", "cyclic_consts", "cyclic_structs",
-            "cyclic_struct_const", "multibyte_then_error", "triple_duplicate", "lints_in_two_files", "hex_separator_then_error"]
+            "cyclic_struct_const", "multibyte_then_error", "triple_duplicate", "lints_in_two_files", "hex_separator_then_error", "deep_nesting", "lexical_error_in_name_position", "skipped_declarations"]
 
 
 def generated_set(seed, i):
@@ -204,6 +206,22 @@ def generated_set(seed, i):
         elif m == "hex_separator_then_error":
             b = rng.randrange(sp.k)
             files[sp.files[b]] += ("\nfn zz_hex()\n{\n\tvar q: u32 = 0x1_00_00 + zz_missing_hex;\n\tvar r: u8 = 0xf_f + 0b1_0 + 1_0 + zz_missing_bin;\n}\n")
+        elif m == "deep_nesting":
+            # valid, but deep: many statements with 20 levels of parentheses in every module
+            for b in range(sp.k):
+                body = "".join("\tvar d%d = %s%d%s;\n" % (j, "(" * 20, j % 9, ")" * 20) for j in range(120))
+                files[sp.files[b]] += "\nfn zz_deep%d()\n{\n%s}\n" % (b, body)
+        elif m == "lexical_error_in_name_position":
+            b = rng.randrange(sp.k)
+            bad = rng.choice(["12abc", "'ab'", "\"open", "\\", "1_2x", "$"])
+            files[sp.files[b]] += "\nfn zz_names()\n{\n\tvar\n\t\t%s = 1;\n}\n\nfn\n%s()\n{\n}\n" % (bad, bad)
+        elif m == "skipped_declarations":
+            # several gotos to one label with declarations in between: the
+            # diagnostic names the goto, the declaration and the label
+            b = rng.randrange(sp.k)
+            files[sp.files[b]] += ("\nfn zz_skip(n: i32) -> i32\n{\n\tvar total = 0;\n\tif n == 1\n\t{\n\t\tgoto zz_after;\n\t}\n\tvar late: i32 = n * 2;\n"
+                                   "\tif n == 2\n\t{\n\t\tgoto zz_after;\n\t}\n\tvar later: i32 = n * 3;\n\tif n == 3\n\t{\n\t\tgoto zz_after;\n\t}\n"
+                                   "\ttotal = late + later;\n\tzz_after:\n\ttotal = total + late + later;\n\treturn: total\n}\n")
         elif m == "triple_duplicate":
             b = rng.randrange(sp.k)
             files[sp.files[b]] += "\nfn zz_tri()\n{\n}\n\nfn zz_tri()\n{\n}\n\nfn zz_tri()\n{\n}\n\nconst ZZ_TRI: i32 = 1;\nconst ZZ_TRI: i32 = 2;\nconst ZZ_TRI: i32 = 3;\n"
@@ -246,6 +264,9 @@ ZOO_CTX = [
     "var v: &[]u8 = cast %s;",
     "var v = %s as u64 as i8 as bool;",
     "var v: [2]i32 = %s;",
+    "var q: &i32 = &x; q = &%s;",
+    "var q: &i32 = &x; &q = %s;",
+    "var q: &&i32 = &&p; &&q = &%s;",
 ]
 
 
@@ -549,6 +570,9 @@ def check_locations_structured(s, wd, stats):
         except ValueError:
             continue
         for e in (rec.get("errors") or []) + (rec.get("lints") or []):
+            # secondary locations, where the language fixes what they point at
+            for c2, d2 in seclabels.check(e, texts, stats):
+                viol.append((c2, d2))
             for fn0, a0, _b0, _ln0, _lo0 in LOC.findall(e):
                 t0 = texts.get(fn0)
                 if t0 is None:
@@ -577,6 +601,25 @@ def check_locations_structured(s, wd, stats):
                 want = 1 + t[:a].count("\n")
                 if ln != want and not (a >= n):
                     viol.append(("span_not_on_reported_line", "%s span %d..%d starts on line %d but line_number=%d: %s" % (fn, a, b, want, ln, e[:200])))
+            # lexical diagnostics: the span starts at the character the error is about
+            lm = LEXICAL.match(e)
+            if lm and lm.group(2) in texts and texts[lm.group(2)] is not None:
+                kind, t1, a1, b1 = lm.group(1), texts[lm.group(2)], int(lm.group(3)), int(lm.group(4))
+                stats["lexical_spans_checked"] = stats.get("lexical_spans_checked", 0) + 1
+                ch = t1[a1:a1 + 1]
+                ok = True
+                if kind in ("InvalidIntegerTypeSuffix", "InvalidIntegerLength"):
+                    ok = ch.isdigit()
+                elif kind == "MissingClosingQuote":
+                    ok = ch in ("\"", "'")
+                elif kind in ("UnexpectedTrailingBackslash", "InvalidEscapeSequence"):
+                    ok = ch == "\\"
+                elif kind == "InvalidCharLiteral":
+                    ok = ch == "'"
+                elif kind == "UnexpectedCharacter":
+                    ok = b1 - a1 == 1
+                if not ok and a1 < len(t1):
+                    viol.append(("lexical_span_not_at_offending_text", "%s is located at %r (span %d..%d of %s)" % (kind, t1[a1:b1][:20], a1, b1, lm.group(2))))
             # what the diagnostic has to say must be in the rendered report: a
             # label that ariadne drops (span outside the source) loses it silently
             rendered = stats.get("base_stderr")
@@ -719,7 +762,7 @@ def run(tier, seed):
         if budget and time.time() - t0 > budget:
             break
     tot = {"runs": 0, "compiler_panics": 0, "sets_with_diagnostics": 0, "render_configs": 0, "locations_checked": 0,
-           "verbose_runs": 0, "named_spans_checked": 0, "messages_checked": 0}
+           "verbose_runs": 0, "named_spans_checked": 0, "messages_checked": 0, "lexical_spans_checked": 0, "secondary_spans_checked": 0}
     diag_lists = set()
     by_kind = {}
     multi = 0
@@ -780,6 +823,8 @@ def run(tier, seed):
         "render_configurations_run": tot["render_configs"],
         "locations_checked": tot["locations_checked"],
         "named_spans_checked": tot["named_spans_checked"],
+        "lexical_spans_checked": tot["lexical_spans_checked"],
+        "secondary_spans_checked": tot["secondary_spans_checked"],
         "report_messages_checked": tot["messages_checked"],
         "verbose_mode_runs": tot["verbose_runs"],
         "large_program_run_build_executions": large_runs,
